@@ -24,7 +24,7 @@ CONFIG = dict(
     driver_root="Cell2v.Driver.C16",
     audit="Audit/C16.lean",
     required_theorems=["broadcast_lists_current_members", "count_eq", "order_is_join_order", "at_most_once_per_front",
-                       "isolation", "isolation_history", "leave_absent_is_noop", "remove_is_erase_first", "removed_or_never_added_not_listed", "service_is_a_map", "front_fanout", "bcast_local_delivery",
+                       "isolation", "isolation_history", "leave_absent_is_noop", "remove_is_erase_first", "removed_or_never_added_not_listed", "service_is_a_map", "front_fanout", "bcast_local_delivery", "push_reaches_only_the_addressed_front",
                        "push_inside_session_add_reaches_new_connection", "push_inside_session_remove_skips_removed"],
     harness_pkg="./c16",
     mode="diff",
@@ -32,16 +32,16 @@ CONFIG = dict(
     runs={
         "quick": [dict(name="main", env={"VERIF_N": "1200"}, timeout=240),
                   dict(name="exh4", test="TestExhaustive", env={"VERIF_DEPTH": "4"}, timeout=240)],
-        "thorough": [dict(name="main", env={"VERIF_N": "20000", "VERIF_BIG": "80", "VERIF_SESS": "2000", "VERIF_RACE": "400"}, timeout=1500),
+        "thorough": [dict(name="main", env={"VERIF_N": "20000", "VERIF_BIG": "80", "VERIF_SESS": "2000", "VERIF_RACE": "400", "VERIF_TWO": "600"}, timeout=1500),
                      dict(name="seed2", env={"VERIF_N": "10000", "VERIF_BIG": "80", "VERIF_SESS": "1000"}, seed_offset=1000, timeout=1500),
                      dict(name="exh6", test="TestExhaustive", env={"VERIF_DEPTH": "6"}, timeout=1500)],
     },
-    trivial=r"^(ok|nil|bad-op|dl=|dl= cb=1|n=0 \| once=1 dl=)?$",
+    trivial=r"^(ok|nil|bad-op|dl=|dl= cb=1|n=0 \| once=1 dl= sent= dlb=)?$",
     rule="op lines generated from one PRNG (VERIF_SEED): cases of 10-80 operations after `reset local=<front>` over channels a,b,c and temp "
          "channels (AllocTempChannel/FreeTempChannel), fronts f1,f2,f3, ids 1..7 plus 0 and 2^32-1; joins (a quarter of them duplicates of a "
          "listed id), leaves (two thirds aimed at the first/middle/last/random element of a real group, the rest at random incl. absent ids, "
          "missing groups and channels), broadcasts, create/fetch/delete, session add/remove, direct ClientSessions.PushMsg and sys.pushmsg with "
-         "live/unknown/duplicate ids, ~2% malformed lines; every case ends with a broadcast on each channel; corpus first; large-group cases (9 quick / 80 thorough per run): one group of 130-600 ids from a counter (a third with a run of duplicates) emptied from the newest end, the oldest end or at random through range ops, with a broadcast after every chunk and single steps around sizes 32/64/128/212; concurrent-membership cases (40 / 400): while a broadcast is in flight — after the channel took a front's id list, before the push layer reads it — another goroutine issues a leave (mostly of a middle member) or join on that same front; every front must receive the snapshot; session-callback cases (60 / 2000): a recording ISessionsHandler whose OnSessionAdd pushes (ClientSessions.PushMsg) or joins+broadcasts (through the real push impl, in place) to lists naming the connection being added, and whose OnSessionRemove pushes to lists naming the one being removed; plus every history "
+         "live/unknown/duplicate ids, ~2% malformed lines; every case ends with a broadcast on each channel; corpus first; large-group cases (9 quick / 80 thorough per run): one group of 130-600 ids from a counter (a third with a run of duplicates) emptied from the newest end, the oldest end or at random through range ops, with a broadcast after every chunk and single steps around sizes 32/64/128/212; concurrent-membership cases (40 / 400): while a broadcast is in flight — after the channel took a front's id list, before the push layer reads it — another goroutine issues a leave (mostly of a middle member) or join on that same front; every front must receive the snapshot; two-front-end cases (60 / 600): two front-end services in one process whose connections are numbered alike but differ in which are live, ClientSessions.PushMsg and sys.pushmsg (through the one shared sys entry object) addressed to each in turn in both orders, broadcasts of channels spanning the issuing front-end, the second one and a remote-only third, issued through the real impls.PushMessageByIds (requests sent onward are captured from ns.RequestEx and handed to the addressed service); three quarters of the ordinary cases also host a second front-end; session-callback cases (60 / 2000): a recording ISessionsHandler whose OnSessionAdd pushes (ClientSessions.PushMsg) or joins+broadcasts (through the real push impl, in place) to lists naming the connection being added, and whose OnSessionRemove pushes to lists naming the one being removed; plus every history "
          "of length <= 4 (quick) / 6 (thorough) over a 7-operation alphabet followed by a broadcast. A case is non-trivial when its observation "
          "is a value (channel identity, tuples, deliveries); distinct = distinct (op, observation) pairs",
     trusted_base=[
@@ -50,6 +50,9 @@ CONFIG = dict(
         "sync.Map / Go map modelled as association lists (Load = first entry, Store = replace in place or append, Delete = remove the key); "
         "Range order is not observed (tuples sorted by front in harness and driver)",
         "the harness's recording IPushMessager copies the id slice at call time (the channel passes its own backing array under the group lock)",
+        "the harness stands in for the actor transport: ns.RequestEx on an unstarted NodeService with a recording actor context (Send) and the "
+        "directory {f1,f2,f3} set through Cluster.UpdateClusterTopology; a captured sys.pushmsg for the second front-end is deserialized and "
+        "handed to the shared builtin.Entry.PushMsg with that service as the owning actor",
         "client serializer = encoding/json on a string of [A-Za-z0-9._-] (quote, bytes, quote)",
         "harness canonicalisation (channel objects numbered in order of first appearance, panics mapped to 'panic')",
     ],
